@@ -199,7 +199,8 @@ theorem init_local (c : Cfg F G) (ephs : List (List F)) (i : Nat) (hi : i < c.n)
     intro M κ _ P key K k
     exact ⟨fun _ => ⟨by simp, by simp, fun h => (by cases h), fun _ => rfl, by simp⟩, fun b hb => (by cases hb)⟩
   refine ⟨none, none, none, ⟨rfl, rfl, rfl, rfl, rfl, p0 _ _ _ _, p0 _ _ _ _, p0 _ _ _ _, by simp, by simp, by simp,
-    by simp [Member.init, stageRank], by simp [Member.init, stageRank], ?_, ?_, ?_, ?_, ?_, ?_⟩, ?_⟩
+    by simp [Member.init, stageRank], by simp [Member.init, stageRank], ?_, ?_, ?_, ?_, ?_, ?_,
+    ⟨fun d hd => (by cases hd), fun d hd => (by cases hd), fun d ks hd => (by cases hd)⟩⟩, ?_⟩
   · exact ⟨fun _ => rfl, fun hh => by simp [Member.init, stageRank] at hh⟩
   · exact ⟨fun _ => rfl, fun hh => by simp [Member.init, stageRank] at hh⟩
   · exact ⟨fun _ => rfl, fun hh => by simp [Member.init, stageRank] at hh⟩
@@ -286,6 +287,8 @@ theorem sysInv_step (c : Cfg F G) (ephs : List (List F)) (hw : WellFormed c ephs
           obtain ⟨mj', stj, spj, sdj, srj, hmj', hinvj, _⟩ := hs.2 j hjn
           rw [hmj] at hmj'; injection hmj' with hmj'; subst hmj'
           have hxe := (local_sent c ephs j mj stj spj sdj srj hinvj).1 x hx
+          have hstamp : ({ index := x.index, key := x.key, sender := j } : PkMsg G) = x := by rw [hxe]; rfl
+          rw [hstamp]
           show SysInv c ephs (s.upd (Ev.pk j i).target (fun m => m.recvPk c.g x) (Ev.pk j i))
           apply sysInv_upd c ephs s hs
           intro hi m st sp sd sr _ hinv hlink
@@ -442,5 +445,26 @@ theorem complete_finishes (c : Cfg F G) (ephs : List (List F)) (hw : WellFormed 
   intro i hi
   obtain ⟨d, ks, hdone⟩ := local_done c ephs i hi (m i hi) _ _ _ (hloc' i hi) (hsp i hi) (hsd i hi) (hsr i hi)
   exact ⟨m i hi, d, ks, hm i hi, hdone⟩
+
+/-- **the event system only produces `HonestReach` states**: after ANY schedule (complete or not), the
+generator a member of a well-formed honest group carries is a state in the sense of `HonestReach`,
+no member has failed, and a member in stage `done` holds the key share `DistKeyShare()` returned on
+that generator – the finishers of `runEvents` are finishers in the sense of the C04 theorems. -/
+theorem runEvents_sound (c : Cfg F G) (ephs : List (List F)) (hw : WellFormed c ephs) (evs : List Ev)
+    (i : Nat) (m : Member F G) (hm : (runEvents c ephs evs).ms[i]? = some m) :
+    i < c.n ∧ (∀ why, m.stage ≠ .failed why) ∧
+    (∀ d, m.stage = .waitDeals d → HonestReach c i d) ∧ (∀ d, m.stage = .waitResps d → HonestReach c i d) ∧
+    (∀ d ks, m.stage = .done d ks → HonestReach c i d ∧ distKeyShare d = .ok ks) := by
+  have hinv := sysInv_run c ephs hw evs
+  have hi : i < c.n := by
+    rw [← hinv.1]
+    rcases Nat.lt_or_ge i (runEvents c ephs evs).ms.length with h | h
+    · exact h
+    · rw [List.getElem?_eq_none h] at hm; cases hm
+  obtain ⟨m', st, sp, sd, sr, hm', ⟨gpk, gdl, grs, hloc, _⟩, _⟩ := hinv.2 i hi
+  rw [hm] at hm'; injection hm' with hm'; subst hm'
+  refine ⟨hi, ?_, hloc.hreach⟩
+  intro why hs
+  exact hloc.hfail (by rw [hs]; rfl)
 
 end Dos.Dkg
